@@ -771,6 +771,26 @@ def mon_decode(case_line, impl_out):
     return out
 
 
+def mon_decode_valid(case_line, impl_out):
+    """cmd 1: bytes the independent validator finds to be exactly one certainly valid broker packet must be accepted
+    by the decoder (the lazy property iterator is exercised at session level)"""
+    t = case_line.split()
+    if t[0] != '1' or impl_out.startswith('BADCASE') or impl_out == 'PANIC':
+        return []
+    b = bytes(int(x) for x in t[2:])
+    frames, tail, err = mqttspec.split_stream(b)
+    if len(frames) != 1 or tail or err:
+        return []
+    first, body, raw = frames[0]
+    try:
+        p = mqttspec.parse_server_packet(first, body)
+    except (mqttspec.Malformed, mqttspec.Unsure):
+        return []
+    if impl_out == 'ERR':
+        return [V('the decoder rejects a valid %s: %s' % (p['type'], raw.hex()[:100]))]
+    return []
+
+
 def mon_reply(case_line, impl_out):
     """cmd 11: an independent reading of the inbound PUBLISH: the reply goes to the first Response Topic with the
     first Correlation Data followed by the user's properties; the owned copy is exact or an error"""
